@@ -2,6 +2,7 @@
 package main
 
 import (
+	"encoding/json"
 	"fmt"
 	"os"
 	"runtime/debug"
@@ -51,8 +52,22 @@ func main() {
 	c := hx.NewCtx(id, tier, def.level)
 	for i := 3; i+1 < len(os.Args); i++ {
 		if os.Args[i] == "--replay" {
+			// a replay file records the seed and tier of the run that produced the witness; every workload is a function
+			// of (seed, tier), so the replay re-runs exactly that workload through the same monitors (the witness itself -
+			// requests, coordinates, schedule, files - is stored in the file for inspection)
+			var rf struct {
+				Seed uint64 `json:"seed"`
+				Tier string `json:"tier"`
+				What string `json:"what"`
+			}
+			if b, err := os.ReadFile(os.Args[i+1]); err == nil && json.Unmarshal(b, &rf) == nil && rf.Tier != "" {
+				c.Seed, c.Tier = rf.Seed, rf.Tier
+				fmt.Printf("replaying %s: seed=%d tier=%s (recorded violation: %.200s)\n", os.Args[i+1], rf.Seed, rf.Tier, rf.What)
+			} else {
+				fmt.Fprintf(os.Stderr, "cannot read replay file %s\n", os.Args[i+1])
+				os.Exit(2)
+			}
 			c.Set("replay_of", os.Args[i+1])
-			os.Setenv("VERIF_REPLAY", os.Args[i+1])
 		}
 	}
 	curCtx = c
